@@ -458,6 +458,36 @@ def judge(ctx, spec, res, ytext):
     return None
 
 
+def run_corpus(ctx, work):
+    """corpus/c02.txt first: minimised past failures (description + subject header); wrappers must compile"""
+    import json
+    path = os.path.join(common.CORPUS, "c02.txt")
+    if not os.path.exists(path):
+        return
+    for n, line in enumerate(open(path)):
+        line = line.strip()
+        if not line or line.startswith("#"):
+            continue
+        row = json.loads(line)
+        d = os.path.join(work, "corpus%d" % n)
+        os.makedirs(d)
+        name = re.search(r"library:\s*(\w+)", row["yaml"]).group(1)
+        y = shroudrun.write_yaml(d, name + ".yaml", row["yaml"])
+        open(os.path.join(d, name + ".hpp"), "w").write(row["header"])
+        cfg, exc, out = shroudrun.run_inproc([y], d)
+        ctx.count(1)
+        if exc is not None:
+            ctx.fail(row["key"], "Shroud failed: %r" % (exc,), {"yaml": row["yaml"]})
+            continue
+        for c in sorted(f for f in os.listdir(d) if f.endswith(".cpp")):
+            rc, log = sh(["g++", "-std=c++17", "-c", "-I.", c, "-o", c + ".o"], d)
+            if rc:
+                m = re.search(r"error: (.*)", log)
+                ctx.fail(row["key"], "%s: %s: %s" % (row["what"], c, m.group(1) if m else "compile error"),
+                         {"yaml": row["yaml"], "header": row["header"], "log": log[-1200:]})
+                break
+
+
 def run(ctx, thorough):
     r = common.rng("c02-oracle")
     nlib = 60 if thorough else 10
@@ -466,6 +496,7 @@ def run(ctx, thorough):
     jobs = []
     kinds = {}
     try:
+        run_corpus(ctx, work)
         for i in range(nlib):
             spec = cxxgen.gen_spec(r, "og%d" % i, rich=True)
             d = os.path.join(work, "o%d" % i)
